@@ -122,6 +122,16 @@ func c14RPC(w *env.World, d *env.Direct, kind, outcome, tag string) {
 	var log []c07Op
 	never := func() bool { return false }
 	switch {
+	case outcome == "sendfail":
+		// one SendMsg fails in the transport while the connection stays usable
+		runOps(r, cs, "S", never, &log, &n)
+		d.Pipe.A.FailNextWrites = 1
+		runOps(r, cs, "SR", never, &log, &n)
+	case outcome == "cancelsend":
+		// the caller cancels and immediately tries to send
+		runOps(r, cs, "S", never, &log, &n)
+		cancel()
+		runOps(r, cs, "SR", never, &log, &n)
 	case strings.HasPrefix(outcome, "cancel"):
 		k := int(outcome[len(outcome)-1] - '0')
 		if k > len(ops) {
@@ -145,14 +155,14 @@ func c14RPC(w *env.World, d *env.Direct, kind, outcome, tag string) {
 func c14(tier string) []*explore.Scenario {
 	var out []*explore.Scenario
 	kinds := []string{"Unary", "Bidi", "SStream", "CStream"}
-	outcomes := []string{"ok", "herr", "cancel0", "cancel1", "cancel2", "cancel3", "deadline", "reset", "openfail"}
+	outcomes := []string{"ok", "herr", "cancel0", "cancel1", "cancel2", "cancel3", "deadline", "reset", "openfail", "sendfail", "cancelsend"}
 	bound := 1
 	if tier == "thorough" {
 		bound = 2
 	}
 	for _, k := range kinds {
 		for _, o := range outcomes {
-			if k == "Unary" && (o == "reset" || (strings.HasPrefix(o, "cancel") && o != "cancel0")) {
+			if k == "Unary" && (o == "reset" || o == "sendfail" || (strings.HasPrefix(o, "cancel") && o != "cancel0")) {
 				continue
 			}
 			out = append(out, c14One([][2]string{{k, o}}, bound))
@@ -273,10 +283,10 @@ func c14History(n int) *explore.Scenario {
 			vsched.Settle()
 			idle := c14State(d)
 			kinds := []string{"Unary", "Bidi", "SStream", "CStream"}
-			outcomes := []string{"ok", "herr", "cancel1", "ok", "deadline", "reset", "ok", "openfail", "cancel2", "ok"}
+			outcomes := []string{"ok", "herr", "cancel1", "ok", "deadline", "reset", "ok", "openfail", "cancel2", "sendfail", "cancelsend", "ok"}
 			for i := 0; i < n; i++ {
 				k, o := kinds[i%4], outcomes[(i/4)%len(outcomes)]
-				if k == "Unary" && (o == "reset" || o == "cancel1" || o == "cancel2") {
+				if k == "Unary" && (o == "reset" || o == "cancel1" || o == "cancel2" || o == "sendfail" || o == "cancelsend") {
 					o = "cancel0"
 				}
 				tag := "h"
